@@ -322,16 +322,17 @@ fn one_run(run_no: usize, seed: u64, cfg: &Cfg) -> (Vec<Value>, Value) {
                         continue;
                     }
                     let id = ids[w][&(r as u64, p)].clone();
-                    run.ev(json!({"ev": "ans", "w": w + 1, "r": r, "p": p, "st": st}));
                     let msg = format!("r{r}p{p}-w{}-{st}", w + 1);
                     let _ = hub.workers[w].chan.as_mut().unwrap().write_message(&worker_response(&id, st, &msg));
+                    // recorded after the write returned (see Trace_MasterHub.tla, T_silent)
+                    run.ev(json!({"ev": "ans", "w": w + 1, "r": r, "p": p, "st": st}));
                 }
                 Act::Close { w } => {
                     if hub.workers[w].chan.is_none() {
                         continue;
                     }
-                    run.ev(json!({"ev": "close", "w": w + 1}));
                     hub.close_worker(w);
+                    run.ev(json!({"ev": "close", "w": w + 1}));
                 }
             }
         }
